@@ -54,7 +54,10 @@ try:
             if not targets:
                 targets = ["tests/test_ersatz.py", "tests/test_predict.py", "tests/test_marginalize.py"]
             t = subprocess.run(["/venv/bin/python", "-m", "pytest", "-q", "-p", "no:cacheprovider", "-x", "-n", "6",
-                                "--deselect", "tests/tools/test_cmd_tomtom.py", "-k", "not captum"] + sorted(set(targets)),
+                                "--deselect", "tests/tools/test_cmd_tomtom.py",
+                                # pre-existing flake (also on the pinned snapshot, 2/10 - 3/8 under load): the test passes a (length, alphabet)
+                                # shaped target, tomtom then reads beyond the query's alphabet rows (see DESIGN.md section 7)
+                                "--deselect", "tests/tools/test_tomtom.py::test_tomtom_homomotifs", "-k", "not captum"] + sorted(set(targets)),
                                cwd=wt, env=env, capture_output=True, text=True, timeout=3600)
             res["tests_targets"] = sorted(set(targets))
             res["tests_exit"] = t.returncode
